@@ -14,6 +14,9 @@ Line protocol for C07 (see harness/c07.py).  Every line is self-contained:
        E=: the variables are rescaled by 2^exp, the model rescales the blocks B= itself: `scaledJac`)
       total derivatives; answer `f:x=<rows> f:x2=<rows> ...` (request order) or `E:singular`
   mc F= V= R=<res:state,...|[]> D=<name:in,in:out,out>|... minimal couplings of the request (sorted)
+  sz V=<names> X=<name:length,...|[]> [B=...]
+      `compute_sizes` of the variables V: B= the blocks the disciplines hold (discipline order),
+      X= the lengths of the current input values; answer: comma list of sizes (`?` when undetermined)
 -/
 
 def parseSizes (s : String) : Option (List (String × Nat)) :=
@@ -78,6 +81,15 @@ def answer (line : String) : String :=
       | some ds => showStrList (minimalCouplings ds r (parseStrList v) (parseStrList f))
       | none => "bad-op"
     | _, _, _, _ => "bad-op"
+  | "sz" :: rest =>
+    match field rest "V", (field rest "X").bind parseSizes, blocksOf rest with
+    | some v, some xs, some bs =>
+      let values := xs.map (fun (n, k) => (n, List.replicate k (0 : Rat)))
+      ",".intercalate ((parseStrList v).map (fun x =>
+        match variableSize bs values x with
+        | some k => toString k
+        | none => "?"))
+    | _, _, _ => "bad-op"
   | op :: a :: rest =>
     match field rest "F", field rest "V", (field rest "S").bind parseSizes, blocksOf rest with
     | some f, some v, some ss, some bs =>
